@@ -660,7 +660,23 @@ func (c *Cluster) RequestLeave(i int) error {
 func (c *Cluster) StartJoiner(k, via int, fastSync bool) error {
 	return c.guard(fmt.Sprintf("Start(%d via %d)", k, via), func() error {
 		cur := c.Nodes[via].Node.GetPeers()
-		c.startNode(k, cur, false, fastSync)
+		var old *SimNode
+		if k < len(c.Nodes) {
+			old = c.Nodes[k]
+		}
+		if old != nil && !old.Down {
+			// a former validator comes back under the same key (re-join): a new process with an empty store
+			func() {
+				defer func() { recover() }()
+				old.Store.Close()
+			}()
+			old.Dir = ""
+		}
+		sn := c.startNode(k, cur, false, fastSync)
+		if old != nil {
+			sn.Restarted = true
+			sn.Submits = nil
+		}
 		return nil
 	})
 }
